@@ -102,7 +102,7 @@ package raft
 // an accepted entry may still be committed by the next leader: its client must get the AMBIGUOUS answer
 //@   ensures [C07.release-ambiguous] old(TaskSep(l) && QLabel(l)) ==> forall(x, l.gq[x] && TaskOf(x) != nil ==> ((istype(TaskOf(x).result, plainError) && as(TaskOf(x).result, plainError) == ErrServerClosed) || (istype(TaskOf(x).result, NotLeaderError) && as(TaskOf(x).result, NotLeaderError).Lost)))
 //@   ensures [C15.release-replies-waiters] old(TaskSep(l) && QLabel(l)) ==> forall(i, old(InWS(l, i)) && old(WSTask(l, i)) != nil ==> GRep(old(WSTask(l, i))) == old(GRep(WSTask(l, i))) + 1)
-//@   ensures l.neHead == nil && l.neTail == nil && l.waitStable == nil && l.replUpdateCh == nil
+//@   ensures [C03+C07.queue-cleared] l.neHead == nil && l.neTail == nil && l.waitStable == nil && l.replUpdateCh == nil
 //@   ensures TransferKept(l, old(l.transfer.task), old(l.transfer.term), old(l.transfer.timer), old(l.transfer.newTermTimer))
 //@   ensures [C17.release-clears-leader] (old(l.leader) == l.nid ==> l.leader == 0) && (old(l.leader) != l.nid ==> l.leader == old(l.leader))
 //@   loop 1 invariant ReplsNonNil(l)
